@@ -72,7 +72,12 @@ fn record(out: &mut Out, name: &str, a: &Value, b: &Value, res: CallRes, par: Va
         }
         CallRes::Diverged => {
             out.diverged += 1;
-            out.tr.ev(json!({"e":"diverge","a":a,"b":b}));
+            if name == "merge" {
+                // no single (a, b): classified by the trace spec as a divergence outside the rho class
+                out.tr.ev(json!({"e":"diverge","a":-1,"b":-1}));
+            } else {
+                out.tr.ev(json!({"e":"diverge","a":a,"b":b}));
+            }
             if let Some((wret, _)) = want
                 && wret.as_i64() != Some(-1)
                 && out.drift.len() < 40
